@@ -14,6 +14,8 @@ pub const M_EXTEND: u32 = 16; // parent/child and suffix stability (C02)
 pub const M_ALIGN_ALL: u32 = 32; // all 32 alignments (C13)
 pub const M_EMBED: u32 = 64; // hdrs vectors embedded after a start line (C16)
 pub const M_CAPLAW: u32 = 128; // capacity law against the same input with more room (C17)
+pub const M_STRADDLE8: u32 = 256; // 8 placements with a page boundary inside the buffer
+pub const M_STRADDLE_ALL: u32 = 512; // every position of a page boundary inside the buffer
 
 pub fn parse_modes(s: &str) -> u32 {
     let mut m = 0;
@@ -28,6 +30,8 @@ pub fn parse_modes(s: &str) -> u32 {
             "alignall" => M_ALIGN_ALL,
             "embed" => M_EMBED,
             "caplaw" => M_CAPLAW,
+            "straddle8" => M_STRADDLE8,
+            "straddleall" => M_STRADDLE_ALL,
             "all" => M_PLACES | M_ENTRIES | M_CFGS | M_COMPLETION | M_EXTEND | M_EMBED | M_CAPLAW,
             x => panic!("unknown mode {}", x),
         };
@@ -119,12 +123,19 @@ pub struct Ctx {
     pub hashes: Vec<u64>,
 }
 
-pub fn real_cap(v: &Vector) -> usize {
+/// real array length for a vector.  For "unlimited" capacity the length varies with the
+/// vector index: one spare slot only, a few, more than 16, more than 32, 100 - so that
+/// behaviour that depends on the array length (or on its address) is exercised as well.
+pub fn real_cap_idx(v: &Vector, idx: u64) -> usize {
     if v.cap >= INF {
-        (v.hdrs.len() + 8).min(MAX_SLOTS - 4)
+        let h = v.hdrs.len();
+        [h + 8, h + 1, h + 17, h + 40, 100 + h][(idx % 5) as usize].min(MAX_SLOTS - 4)
     } else {
         v.cap as usize
     }
+}
+pub fn real_cap(v: &Vector) -> usize {
+    real_cap_idx(v, 0)
 }
 
 pub fn primary_entry(kind: u8) -> u8 {
@@ -168,6 +179,31 @@ impl Ctx {
         }
     }
 
+    /// append the specification's completion witness and a few generic tails, and judge any
+    /// Complete result under the observation-only properties
+    fn probe(&mut self, v: &Vector, entry: u8, cap: usize, how: Place, line: &str) {
+        const TAILS: [&[u8]; 7] = [b" / HTTP/1.1\r\n\r\n", b" HTTP/1.1\r\n\r\n", b"\r\n\r\n", b": x\r\n\r\n", b"\n\n", b" 200 OK\r\n\r\n", b"x\r\n\r\n"];
+        let mut tails: Vec<Vec<u8>> = vec![v.completion.clone()];
+        tails.extend(TAILS.iter().map(|t| t.to_vec()));
+        for tail in tails {
+            let mut b2 = v.buf.clone();
+            b2.extend_from_slice(&tail);
+            let p2 = self.arena2.place(&b2, how);
+            let p2: &[u8] = unsafe { std::slice::from_raw_parts(p2.as_ptr(), p2.len()) };
+            let o = run(entry, v.cfg, p2, cap + 4);
+            self.stats.observations += 1;
+            if o.st == ST_C && !o.panicked {
+                let mut t = Tags::new();
+                judge_zero_copy(v, &o, p2, &mut t);
+                judge_hygiene(v, &o, p2, &mut t);
+                if !t.is_empty() {
+                    self.report(t, entry, &format!("{:?}, continued with {:?}", how, String::from_utf8_lossy(&tail)), line);
+                }
+                break;
+            }
+        }
+    }
+
     pub fn process(&mut self, v: &Vector, line: &str, idx: u64) {
         let st = &mut self.stats;
         st.vectors += 1;
@@ -191,7 +227,7 @@ impl Ctx {
             st.samples.push(line.to_string());
         }
 
-        let cap = real_cap(v);
+        let cap = real_cap_idx(v, idx);
         let entry = primary_entry(v.kind);
         let modes = self.modes;
 
@@ -203,33 +239,16 @@ impl Ctx {
         let mut tags = Tags::new();
         let mut drift = Vec::new();
         judge_all(v, &base, buf, entry, &mut tags, &mut drift);
-        if !tags.is_empty() {
+        let had_mismatch = !tags.is_empty();
+        if had_mismatch {
             self.report(tags, entry, "placement=End", line);
         }
         self.drift(drift, line);
 
-        // ---- the code went on where the specification had already rejected: try to bring the
-        // parse to an end with generic tails and judge what it then hands out (C04 / C05 are
-        // judged on the observation alone)
-        if v.st == ST_E && base.st == ST_P && v.kind != K_CHUNK {
-            const TAILS: [&[u8]; 7] = [b" / HTTP/1.1\r\n\r\n", b" HTTP/1.1\r\n\r\n", b"\r\n\r\n", b": x\r\n\r\n", b"\n\n", b" 200 OK\r\n\r\n", b"x\r\n\r\n"];
-            for tail in TAILS.iter() {
-                let mut b2 = v.buf.clone();
-                b2.extend_from_slice(tail);
-                let p2 = self.arena2.place(&b2, Place::End);
-                let p2: &[u8] = unsafe { std::slice::from_raw_parts(p2.as_ptr(), p2.len()) };
-                let o = run(entry, v.cfg, p2, cap + 4);
-                self.stats.observations += 1;
-                if o.st == ST_C && !o.panicked {
-                    let mut t = Tags::new();
-                    judge_zero_copy(v, &o, p2, &mut t);
-                    judge_hygiene(v, &o, p2, &mut t);
-                    if !t.is_empty() {
-                        self.report(t, entry, &format!("continued with {:?}", String::from_utf8_lossy(tail)), line);
-                    }
-                    break;
-                }
-            }
+        // ---- the code disagrees with the specification while still Partial: bring the parse to
+        // an end and judge what it then hands out (C04 / C05 are judged on the observation alone)
+        if had_mismatch && base.st == ST_P && v.kind != K_CHUNK {
+            self.probe(v, entry, cap, Place::End, line);
         }
 
         // ---- other placements
@@ -250,9 +269,53 @@ impl Ctx {
                 judge_all(v, &o, b2, entry, &mut tags, &mut d);
                 if let Some(m) = same_result(&base, buf, &o, b2) {
                     tags.push(("C13", format!("result depends on buffer placement {:?}: {}", pl, m)));
+                    if base.st != ST_P || o.st != ST_P {
+                        tags.push(("C02", format!("the same bytes at another address give a different final answer ({:?}): {}", pl, m)));
+                    }
                 }
                 if !tags.is_empty() {
                     self.report(tags, entry, &format!("placement={:?}", pl), line);
+                }
+            }
+        }
+
+        // ---- a page boundary of the address space inside the buffer (code that treats loads
+        // near page boundaries specially depends on the buffer's address, not on its content)
+        if modes & (M_STRADDLE8 | M_STRADDLE_ALL) != 0 && v.buf.len() >= 2 {
+            let len = v.buf.len();
+            let ks: Vec<usize> = if modes & M_STRADDLE_ALL != 0 {
+                (1..len).collect()
+            } else {
+                // around the last bytes (where families put the byte under test), and spread out
+                let mut k: Vec<usize> = vec![len - 1, len.saturating_sub(2).max(1), len.saturating_sub(3).max(1), len.saturating_sub(9).max(1),
+                                             len.saturating_sub(17).max(1), len.saturating_sub(33).max(1), 1 + (idx as usize % (len - 1)), 1 + ((idx as usize * 7 + 3) % (len - 1))];
+                k.sort_unstable();
+                k.dedup();
+                k
+            };
+            for k in ks {
+                let b2 = self.arena2.place(&v.buf, Place::Straddle(k));
+                let b2: &[u8] = unsafe { std::slice::from_raw_parts(b2.as_ptr(), b2.len()) };
+                let o = run(entry, v.cfg, b2, cap);
+                self.stats.observations += 1;
+                self.stats.placements += 1;
+                let mut tags = Tags::new();
+                let mut d = Vec::new();
+                judge_all(v, &o, b2, entry, &mut tags, &mut d);
+                if let Some(m) = same_result(&base, buf, &o, b2) {
+                    tags.push(("C13", format!("result depends on where a page boundary falls inside the buffer (after byte {}): {}", k, m)));
+                    if base.st != ST_P || o.st != ST_P {
+                        // a growing buffer moves when it is re-allocated: a final answer that depends on
+                        // the address is not stable under appending
+                        tags.push(("C02", format!("the same bytes at another address give a different final answer (page boundary after byte {}): {}", k, m)));
+                    }
+                }
+                if !tags.is_empty() {
+                    self.report(tags, entry, &format!("placement=Straddle({})", k), line);
+                    if o.st == ST_P && v.kind != K_CHUNK {
+                        self.probe(v, entry, cap, Place::Straddle(k), line);
+                    }
+                    break;
                 }
             }
         }
